@@ -358,12 +358,15 @@ type Force struct {
 	Arity int    // OpTuple / OpHList
 	Leaf  string // OpLeaf / OpPtrLeaf / OpField / map key kind
 	At    int
+	// LeafKids makes the components of a forced tuple plain leaves (keeps comparisons cheap).
+	LeafKids bool
 }
 
 type gen struct {
-	r      *rand.Rand
-	cfg    *Cfg
-	budget int
+	r        *rand.Rand
+	cfg      *Cfg
+	budget   int
+	leafKids bool
 }
 
 func isLeafOp(op Op) bool {
@@ -391,6 +394,7 @@ func (g *gen) opsWhere(p func(Op) bool) []Op {
 func (g *gen) expr(level int, f *Force) *Expr {
 	g.budget--
 	if f != nil && f.At <= level {
+		g.leafKids = f.LeafKids
 		return g.make(f.Op, f.Arity, f.Leaf, level, nil)
 	}
 	if f != nil {
@@ -426,6 +430,8 @@ func (g *gen) arity() int {
 func (g *gen) make(op Op, arity int, leaf string, level int, pass *Force) *Expr {
 	r := g.r
 	e := &Expr{Op: op, Variant: r.IntN(6)}
+	leafKids := g.leafKids
+	g.leafKids = false
 	switch op {
 	case OpLeaf:
 		if leaf == "" {
@@ -477,9 +483,12 @@ func (g *gen) make(op Op, arity int, leaf string, level int, pass *Force) *Expr 
 		e.Dom = &Shape{Kind: kind}
 		for i := 0; i < n; i++ {
 			var k *Expr
-			if i == path {
+			switch {
+			case leafKids:
+				k = g.make(OpLeaf, -1, "", level+1, nil)
+			case i == path:
 				k = g.expr(level+1, pass)
-			} else {
+			default:
 				k = g.expr(level+1, nil)
 			}
 			e.Kids = append(e.Kids, k)
@@ -629,4 +638,15 @@ func (g *gen) coarse(src *Shape) *Expr {
 		}
 	}
 	return &Expr{Op: OpContra, Dom: src, Fn: fn, Kids: []*Expr{Natural(fn.Dst)}}
+}
+
+// Depth is the nesting depth of the expression (a leaf instance has depth 1).
+func (e *Expr) Depth() int {
+	d := 0
+	for _, k := range e.Kids {
+		if kd := k.Depth(); kd > d {
+			d = kd
+		}
+	}
+	return d + 1
 }
